@@ -26,7 +26,7 @@ Qed.
 Section Read.
 Variables comp decomp : HuffC.
 (* C07's round trip, as a hypothesis about the coder handed to the packet layer *)
-Hypothesis huff_rt : forall x c y, comp x c = Some y ->
+Hypothesis huff_rt : forall x c y, bytes_ok x = true -> comp x c = Some y ->
   forall c', (length x <= c')%nat -> decomp y c' = Some x.
 
 (* the views a value is returned with when it is read from its own encoding *)
@@ -56,15 +56,19 @@ Lemma chunk_flags_facts resend c :
 Proof. destruct resend, c; vm_compute; repeat split. Qed.
 
 Lemma read_chunks_enc ack tok resend nc payload cap :
-  expressible6 (P6Connected ack tok (P6Chunks resend nc payload)) = true -> (1400 <= cap)%nat ->
+  expressible6 (P6Connected ack tok (P6Chunks resend nc payload)) = true ->
+  packet_bytes_ok6 (P6Connected ack tok (P6Chunks resend nc payload)) = true -> (1400 <= cap)%nat ->
   let p := P6Connected ack tok (P6Chunks resend nc payload) in
   read6 decomp (encoding6 comp p) (true_hint6 p) cap
   = (k05_warnings6 p, Ok (p, views_of6 p (enc_compressed6 p))).
 Proof.
-  intros Hx Hcap p. cbn [expressible6] in Hx.
+  intros Hx Hbok Hcap p. cbn [expressible6] in Hx.
   apply andb_true_iff in Hx as [Hx Hty]. apply andb_true_iff in Hx as [Hack Htok].
   apply andb_true_iff in Hty as [Hnc Hlen]. apply Z.leb_le in Hlen.
   destruct (chunks_payload6_expr tok payload Hlen Htok) as [Epl Hpl].
+  assert (Hplok : bytes_ok (chunks_payload6 tok payload) = true).
+  { rewrite Epl. cbn [packet_bytes_ok6] in Hbok. apply andb_true_iff in Hbok as [Ht Hp].
+    unfold bytes_ok in *. rewrite forallb_app, Hp. destruct tok; cbn [opt_bytes forallb]; [exact Ht|reflexivity]. }
   unfold p, encoding6, enc_compressed6. set (pl' := chunks_payload6 tok payload) in *.
   unfold chunks_flags6, chunks_body6. set (c := chunks_compressed6 comp pl').
   destruct (chunk_flags_facts resend c) as (F1 & F2 & F3 & F4 & F5).
@@ -101,7 +105,7 @@ Proof.
     destruct (ph6_pack_unpack _ Hr2) as (fp & Efp & _). rewrite Efp.
     assert (Hfl : length (PacketHeaderPacked6_as_bytes fp) = 3%nat) by (destruct fp; reflexivity).
     rewrite Hfl. replace (cap <? 3)%nat with false by (symmetry; apply Nat.ltb_ge; lia).
-    rewrite (huff_rt pl' ARRAYVEC_CAP s Es (cap - 3)%nat) by lia.
+    rewrite (huff_rt pl' ARRAYVEC_CAP s Hplok Es (cap - 3)%nat) by lia.
     rewrite of_bytes6_enc. reflexivity. }
   rewrite Eslice. unfold read_payload6. cbn [s_data ph6_flags ph6_ack ph6_num_chunks].
   replace (Z.of_nat (length pl') >? MAX_PACKETSIZE - HEADER_SIZE) with false
@@ -238,11 +242,11 @@ Proof.
 Qed.
 
 (* the reader inverts the writer's encoding *)
-Theorem read_encoding6 p cap : expressible6 p = true -> (1400 <= cap)%nat ->
+Theorem read_encoding6 p cap : expressible6 p = true -> packet_bytes_ok6 p = true -> (1400 <= cap)%nat ->
   read6 decomp (encoding6 comp p) (true_hint6 p) cap
   = (k05_warnings6 p, Ok (p, views_of6 p (enc_compressed6 p))).
 Proof.
-  intros Hx Hcap. destruct p as [payload|ack tok [resend nc payload|c]].
+  intros Hx Hbok Hcap. destruct p as [payload|ack tok [resend nc payload|c]].
   - apply read_connless_enc; assumption.
   - apply read_chunks_enc; assumption.
   - apply (read_control_enc ack tok c cap Hx Hcap).
